@@ -40,7 +40,7 @@ func metaOffsets(b *Base, owner string) (offs []int, kind map[int]string) {
 	}
 	func() {
 		defer func() { _ = recover() }()
-		f, _ := indep.Decode(b.Data, indep.Options{})
+		f, _ := indep.Decode(b.Data, indep.TolerateAll())
 		if f == nil {
 			return
 		}
@@ -218,8 +218,8 @@ func gcolCases(b *Base) [][]Mut {
 // only in such files: the library cannot write the compact layout).
 type objTarget struct{ base, owner string }
 
-var objTargetsQuick = []objTarget{{"gen/compact_only", "/compact"}}
-var objTargetsThorough = []objTarget{{"corpus/hdf5_official/h5repack_layout.h5", "/dset_compact"}}
+var objTargetsQuick = []objTarget{{"gen/compact_only", "/compact"}, {"gen/v2_rank3", "/c3"}}
+var objTargetsThorough = []objTarget{{"gen/v2_rank3", "/k3"}, {"corpus/hdf5_official/h5repack_layout.h5", "/dset_compact"}}
 
 var enumFilesQuick = []string{"corpus/v0.h5", "corpus/compound_test.h5", "corpus/v2.h5", "corpus/with_groups.h5"}
 var enumFilesThorough = []string{"corpus/string_test.h5", "corpus/test_attributes.h5", "corpus/multiple_datasets.h5", "corpus/test_3d_chunked.h5",
